@@ -59,6 +59,7 @@ type c10Info struct {
 	NextTag int32   `json:"nextTag"`
 	Dup     bool    `json:"dup"`
 	Events  int     `json:"events"`
+	Jumped  bool    `json:"jumped"`
 }
 
 func c10State(w *World, h *HistRun) (string, any) {
@@ -67,6 +68,9 @@ func c10State(w *World, h *HistRun) (string, any) {
 	for _, stp := range h.Steps {
 		if stp.Op.K == "create" && stp.Op.OTE != "" && stp.Resp.Code == 201 {
 			info.Events++
+		}
+		if stp.Op.K == "jump" {
+			info.Jumped = true
 		}
 	}
 	var ss []string
@@ -85,7 +89,8 @@ func c10State(w *World, h *HistRun) (string, any) {
 	return fmt.Sprintf("%s|%s|n%d|ev%d", k, strings.Join(ss, ","), s.LocalSeq, info.Events), info
 }
 
-func c10Alphabet(names []string, fill bool) func(raw json.RawMessage, depth int) []Op {
+func c10Alphabet(names []string, fill bool, jumpOpt ...bool) func(raw json.RawMessage, depth int) []Op {
+	jump := len(jumpOpt) > 0 && jumpOpt[0]
 	return func(raw json.RawMessage, depth int) (ops []Op) {
 		var in c10Info
 		json.Unmarshal(raw, &in)
@@ -107,8 +112,8 @@ func c10Alphabet(names []string, fill bool) func(raw json.RawMessage, depth int)
 		if creates < 4 {
 			for u := 0; u < 3; u++ {
 				for _, n := range names {
-					if have[fmt.Sprintf("%d/%s", u, n)] {
-						continue
+					if have[fmt.Sprintf("%d/%s", u, n)] && !(jump && in.Jumped) {
+						continue // (after the counter jump the same consumer attaches once more)
 					}
 					c := mkCreate(u, n)
 					c.CID = int32(100 + 10*u + depth)
@@ -127,6 +132,9 @@ func c10Alphabet(names []string, fill bool) func(raw json.RawMessage, depth int)
 				ops = append(ops, ev)
 				break
 			}
+		}
+		if jump && !in.Jumped && creates > 0 {
+			ops = append(ops, Op{K: "jump", U: 0})
 		}
 		if fill && !filled && creates > 0 {
 			ops = append(ops, Op{K: "fill", U: 3, Amt: 9})
@@ -166,6 +174,8 @@ func init() {
 			{"counter0-url-characters", 0, []string{"x%2Fy", "x%41", "x y", "x+y", "x?y#z", "x%zz"}, false, 2},
 			// names that differ in case or in surrounding blanks only
 			{"counter0-case-and-blanks", 0, []string{"x", "X", "x ", " x"}, false, 3},
+			// the counter 2^32 records later, with sessions still open
+			{"counter7-jump", 7, []string{"x"}, false, 3},
 		}
 		if rep.Tier == "thorough" {
 			scs[0].depth, scs[1].depth, scs[2].depth, scs[3].depth = 4, 4, 4, 5
@@ -173,7 +183,7 @@ func init() {
 		}
 		for _, sc := range scs {
 			st := BFSStats{}
-			sp := BFSSpec{Name: sc.name, Check: "C10", Oracle: "C10", Cfg: WorldCfg{Accounts: nil, LocalSeq: sc.seq}, Supis: c10Supis, MaxDepth: sc.depth, Alphabet: c10Alphabet(sc.names, sc.fill)}
+			sp := BFSSpec{Name: sc.name, Check: "C10", Oracle: "C10", Cfg: WorldCfg{Accounts: nil, LocalSeq: sc.seq}, Supis: c10Supis, MaxDepth: sc.depth, Alphabet: c10Alphabet(sc.names, sc.fill, strings.HasSuffix(sc.name, "-jump"))}
 			RunBFS(pool, sp, rep, &st)
 			total.States += st.States
 			total.Transitions += st.Transitions
